@@ -382,6 +382,9 @@ def build():
     u.fn(G, 'with_origin', within='impl<T> Grpc<T>', props=CF,
          ensures=[Clause('G1_fresh_client_compresses_nothing_accepts_nothing_and_has_no_limits',
                          'r.inner == inner && r.config.origin == origin && r.config.send_compression_encodings is None && r.config.accept_compression_encodings.none_enabled() && r.config.accept_compression_encodings.wf() && r.config.max_decoding_message_size is None && r.config.max_encoding_message_size is None')])
+    u.fn(G, 'new', within='impl<T> Grpc<T>', props=CF, display='Grpc::new',
+         ensures=[Clause('G0_a_new_client_compresses_nothing_accepts_nothing_and_has_no_limits',
+                         'r.inner == inner && r.config.send_compression_encodings is None && r.config.accept_compression_encodings.none_enabled() && r.config.accept_compression_encodings.wf() && r.config.max_decoding_message_size is None && r.config.max_encoding_message_size is None')])
     u.fn(G, 'send_compressed', within='impl<T> Grpc<T>', props=CF,
          ensures=[Clause('G2_send_encoding_is_the_one_given_nothing_else_changes',
                          'r.config.send_compression_encodings == Some(encoding) && r.config.accept_compression_encodings == self.config.accept_compression_encodings && r.config.origin == self.config.origin && r.config.max_decoding_message_size == self.config.max_decoding_message_size && r.config.max_encoding_message_size == self.config.max_encoding_message_size && r.inner == self.inner')])
@@ -513,4 +516,6 @@ pub proof fn lemma_transport_error_is_what_it_means<M2, C: Codec, RB, E>(cfg: Gr
              Clause('SS2_outcome_as_for_a_streaming_call', 'call_outcome(old(self).config, codec, final(self).inner.answer(), r)'),
          ])
     u.close('}')
+    u.fn(G, 'clone', within='impl<T: Clone> Clone for Grpc<T>', header='impl<T: Clone> Clone for Grpc<T> {', close=True, props=['C05', 'C06', 'C02'], display='Grpc::clone', vacuity=False,
+         ensures=[Clause('G9_a_cloned_client_has_the_same_configuration', 'r.config == self.config && cloned(self.inner, r.inner)')])
     return u
